@@ -353,7 +353,7 @@ def ob_accessors(report):
         n += len(res)
         for r in res:
             c = [e for e in r.events if e.kind == 'call']
-            if r.tag != 'return' or len(c) != 1 or not c[0].name.endswith('quinn::Connection::stable_id') or vname(r.ret) != vname(c[0].ret):
+            if r.tag != 'return' or len(c) != 1 or not c[0].name.endswith('quinn::Connection::stable_id') or vname(e2.peel(r.ret)) != vname(c[0].ret):
                 bad = bad or 'Connection::stable_id is not quinn::Connection::stable_id of the wrapped connection'
         fn = find_method(ex.prog, 'Connection', 'close', file_re=r'anemo/src/connection\.rs')
         res = ex.run(fn, [])
